@@ -32,7 +32,7 @@ CORPUS = [
     [[b"SET", b"corpus:k\r\n", b"v\r\n+OK\r\n$-1\r\n"], [b"GET", b"corpus:k\r\n"], [b"KEYS", b"corpus:k*"], [b"RENAME", b"corpus:k\r\n", b"corpus:\x00\xff"],
      [b"KEYS", b"corpus:*"], [b"TYPE", b"corpus:\x00\xff"], [b"APPEND", b"corpus:\x00\xff", b"\r"], [b"GET", b"corpus:\x00\xff"], [b"DEL", b"corpus:\x00\xff"]],
     [[b"RPUSH", b"corpus:l\r\n", b"", b"\r\n", b"+OK", b"-ERR", b"$5", b":1", b"*2", b"\x00", b"\xff"], [b"LRANGE", b"corpus:l\r\n", b"0", b"-1"],
-     [b"BLPOP", b"corpus:l\r\n", b"1"], [b"BRPOP", b"corpus:l\r\n", b"1"], [b"LPOP", b"corpus:l\r\n", b"3"], [b"LINDEX", b"corpus:l\r\n", b"0"],
+     [b"BLPOP", b"corpus:l\r\n", b"20"], [b"BRPOP", b"corpus:l\r\n", b"20"], [b"LPOP", b"corpus:l\r\n", b"3"], [b"LINDEX", b"corpus:l\r\n", b"0"],
      [b"LMOVE", b"corpus:l\r\n", b"corpus:m\n", b"left", b"right"], [b"LRANGE", b"corpus:m\n", b"0", b"-1"], [b"DEL", b"corpus:l\r\n", b"corpus:m\n"]],
     [[b"SET", b"corpus:s", b"x"], [b"LPUSH", b"corpus:s", b"a\r\n"], [b"INCR", b"corpus:s"], [b"INCRBY", b"corpus:s", b"1\r\n"], [b"SET", b"corpus:s", b"v", b"bogus\r\n"],
      [b"SETRANGE", b"corpus:s", b"x\r\n", b"v"], [b"LSET", b"corpus:nolist\r\n", b"0", b"v"], [b"RENAME", b"corpus:missing\r\n", b"corpus:b"], [b"DEL", b"corpus:s"]],
@@ -113,6 +113,23 @@ def fresh_run(d, prog, r, st):
         return txt, trace, server.stderr_tail() if died else ""
     finally:
         server.stop()
+
+
+def confirm(d, prog, r, st, runs=3, need=2):
+    """(mismatch text, server stderr) if the program fails `need` times with the same kind of
+    mismatch in at most `runs` runs, each on a fresh server; (None, "") otherwise"""
+    seen, last = collections.Counter(), {}
+    for i in range(runs):
+        txt, _, serr = fresh_run(d, prog, r, st)
+        if txt:
+            k = kind_of(txt)
+            seen[k] += 1
+            last[k] = (txt, serr)
+            if seen[k] >= need:
+                return last[k]
+        elif i + 1 - sum(seen.values()) > runs - need:
+            break
+    return None, ""
 
 
 def kind_of(txt):
@@ -237,24 +254,40 @@ def run(ctx, families=None):
                 serr = server.stderr_tail() if died else ""
             finally:
                 server.stop()
+            notes = []
             if mm or died:
-                byname = {p.name: p for p in progs}
-                suspects = [p for p in progs if p.name in mm][:12]
+                # A discrepancy seen in the batch counts only if the same program fails again, in the
+                # same way, on a fresh server (2 failures in at most 3 runs): the batch shares the
+                # machine with whatever else is running.
+                suspects = [p for p in progs if p.name in mm][:10]
                 for p in suspects:
-                    txt, _, serr1 = fresh_run(d, p, r, st)
+                    txt, serr1 = confirm(d, p, r, st)
                     if txt:
                         small = shrink_prog(d, p, r, st)
                         txt2, tr2, serr2 = fresh_run(d, small, r, st)
-                        if not txt2:
+                        if not txt2 or kind_of(txt2) != kind_of(txt):
                             small, txt2, tr2, serr2 = p, txt, [], serr1
                         failing = dict(kind="impl-vs-model", case=p.name, mismatch=txt2, commands_hex=[[hx(a) for a in c] for c in small.cmds],
                                        commands=readable_prog(small.cmds), trace=tr2[-30:], shrunk_from=len(p.cmds), server_stderr=serr2)
                         break
-                if failing is None:
-                    n0 = suspects[0].name if suspects else progs[0].name
-                    failing = dict(kind="impl-vs-model", case=n0, mismatch=mm.get(n0, "the server process died during the batch"),
-                                   commands_hex=[[hx(a) for a in c] for c in byname[n0].cmds], commands=readable_prog(byname[n0].cmds),
-                                   not_reproduced_alone=True, process_died=died, server_stderr=serr)
+                    notes.append(dict(case=p.name, mismatch=mm[p.name][:200], reproduced=False))
+                if failing is None and died:
+                    # no single program kills the process: does the batch do it again?
+                    server = resplib.Server(d)
+                    try:
+                        server.start()
+                        st["server_starts"] += 1
+                        run_programs(server, d, progs, r, "main2")
+                        died2 = not server.alive()
+                        serr2 = server.stderr_tail() if died2 else ""
+                    finally:
+                        server.stop()
+                    if died2:
+                        failing = dict(kind="impl-vs-model", case="(whole batch, twice)", mismatch="the server process died while serving the batch, twice; no single program reproduces it",
+                                       commands_hex=[], commands=[], process_died=True, server_stderr=serr2 or serr)
+                    else:
+                        notes.append(dict(case="(batch)", mismatch="the server process died once during the batch; not reproduced", reproduced=False))
+            st["unreproduced_discrepancies"] = notes[:10]
         except RuntimeError as ex:
             berr = str(ex)
     rc = 0
@@ -284,6 +317,7 @@ def run(ctx, families=None):
               "compared; distinct_nontrivial = distinct (command, arity, reply kind) triples observed") % (", ".join(sorted((families or G.FAMILIES))), len(CORPUS)),
         commands={k: v for k, v in sorted(cmds.items())}, reply_kinds=dict(kinds),
         bulk_payloads_with_cr_or_lf_decoded=crlf_bulks, error_replies=err_lines, server_starts=st["server_starts"],
+        unreproduced_discrepancies=st.get("unreproduced_discrepancies", []),
         samples=samples or ["(none)"],
         correspondence="bytes written by the real server (server.Start over TCP) decoded by extracted decode_stream: complete, one reply per command, equal to extracted srv_exec reply for reply",
     ))
